@@ -101,7 +101,7 @@ func Path(v ssa.Value) string {
 			if !ok {
 				return ""
 			}
-			name := st.Field(x.Field).Name()
+			name := world.CanonField(st.Field(x.Field))
 			if inner, ok := x.X.(*ssa.FieldAddr); ok {
 				// address of a field of an embedded (non-pointer) struct field: keep the outer path
 				if base := Path(inner); base != "" {
@@ -121,7 +121,7 @@ func Path(v ssa.Value) string {
 			if !ok {
 				return ""
 			}
-			name := st.Field(x.Field).Name()
+			name := world.CanonField(st.Field(x.Field))
 			if tn := typeName(x.X.Type()); tn != "" {
 				return tn + "." + name
 			}
